@@ -727,3 +727,232 @@ theorem signed_refines (s : MsgState) (e : Entropy) (p : PW) (embeds attachments
   simp [Ent.ser, serList_append, List.append_assoc]
 
 end GoMail.Mime
+
+namespace GoMail.Mime
+open GoMail
+
+/-! ### messages without any multipart layer: one leaf at the top level, its headers folded -/
+
+/-- header lines as msgWriter.writeHeader writes them (folded at blanks), one field per entry -/
+def foldedLines (h : HeaderMap) : Bytes := (h.map (fun kv => Fold.bufferString kv.1 [kv.2] ++ crlf)).flatten
+
+/-- a leaf as it stands at the top level of a message: folded header fields, empty line, body -/
+def Ent.serTop : Ent → Bytes
+  | .leaf h body => foldedLines h ++ crlf ++ body
+  | .multi st b cs => (Ent.multi st b cs).ser
+
+theorem header_out (p : PW) (c : Bool) (k v : Bytes) :
+    (p.header c k [v]).out = p.out ++ Fold.bufferString k [v] ++ crlf ∧ (p.header c k [v]).stack = p.stack ∧
+    (p.header c k [v]).rawPartHeaders = p.rawPartHeaders := by
+  unfold PW.header PW.out
+  simp [planBytes, WAct.bytes, List.append_assoc]
+
+theorem partHeader_out (p : PW) (k v : Bytes) (hr : p.rawPartHeaders = false) :
+    (p.partHeader k [v]).out = p.out ++ Fold.bufferString k [v] ++ crlf ∧ (p.partHeader k [v]).stack = p.stack ∧
+    (p.partHeader k [v]).rawPartHeaders = false := by
+  unfold PW.partHeader
+  simp only [hr, Bool.false_eq_true, if_false]
+  obtain ⟨a, b, c⟩ := header_out p false k v
+  exact ⟨a, b, by rw [c, hr]⟩
+
+theorem foldl_partHeader_out (h : HeaderMap) (p : PW) (hr : p.rawPartHeaders = false) :
+    (h.foldl (fun p kv => p.partHeader kv.1 [kv.2]) p).out = p.out ++ foldedLines h ∧
+    (h.foldl (fun p kv => p.partHeader kv.1 [kv.2]) p).stack = p.stack := by
+  induction h generalizing p with
+  | nil => simp [foldedLines]
+  | cons x xs ih =>
+    obtain ⟨a, b, c⟩ := partHeader_out p x.1 x.2 hr
+    obtain ⟨i1, i2⟩ := ih (p.partHeader x.1 [x.2]) c
+    simp only [List.foldl_cons]
+    refine ⟨?_, by rw [i2, b]⟩
+    rw [i1, a]
+    simp [foldedLines, List.append_assoc]
+
+/-- a body part written at the top level (no multipart open, not the signing pre-render) -/
+theorem writePart_top (p : PW) (s : MsgState) (part : Part) (h0 : p.stack = []) (hr : p.rawPartHeaders = false) :
+    (p.writePart s part).out = p.out ++ (leafOfPart s part).serTop ∧ (p.writePart s part).stack = [] := by
+  have hd : (p.depth == 0) = true := by simp [PW.depth, h0]
+  unfold PW.writePart
+  simp only [hd, if_true]
+  by_cases hde : part.desc.isEmpty = true
+  · simp only [hde, if_true]
+    obtain ⟨a1, b1, c1⟩ := partHeader_out p hCTE part.enc hr
+    obtain ⟨a2, b2, c2⟩ := partHeader_out (p.partHeader hCTE [part.enc]) hContentType
+      (if part.smime then part.ctype else part.ctype ++ sb "; charset=" ++ (if part.charset.isEmpty then s.charset else part.charset)) c1
+    obtain ⟨a3, b3⟩ := str_out ((p.partHeader hCTE [part.enc]).partHeader hContentType
+      [if part.smime then part.ctype else part.ctype ++ sb "; charset=" ++ (if part.charset.isEmpty then s.charset else part.charset)]) crlf
+    obtain ⟨a4, b4⟩ := body_out (((p.partHeader hCTE [part.enc]).partHeader hContentType
+      [if part.smime then part.ctype else part.ctype ++ sb "; charset=" ++ (if part.charset.isEmpty then s.charset else part.charset)]).str crlf)
+      part.enc part.prod
+    refine ⟨?_, by rw [b4, b3, b2, b1, h0]⟩
+    rw [a4, a3, a2, a1]
+    simp [leafOfPart, Ent.serTop, foldedLines, hde, List.append_assoc]
+  · simp only [hde, Bool.false_eq_true, if_false]
+    obtain ⟨a0, b0, c0⟩ := partHeader_out p hContentDesc (EncodedWord.wordEncode (encoderOf s.encoding) s.charset part.desc) hr
+    obtain ⟨a1, b1, c1⟩ := partHeader_out _ hCTE part.enc c0
+    obtain ⟨a2, b2, c2⟩ := partHeader_out _ hContentType
+      (if part.smime then part.ctype else part.ctype ++ sb "; charset=" ++ (if part.charset.isEmpty then s.charset else part.charset)) c1
+    obtain ⟨a3, b3⟩ := str_out (((p.partHeader hContentDesc [EncodedWord.wordEncode (encoderOf s.encoding) s.charset part.desc]).partHeader hCTE [part.enc]).partHeader hContentType
+      [if part.smime then part.ctype else part.ctype ++ sb "; charset=" ++ (if part.charset.isEmpty then s.charset else part.charset)]) crlf
+    obtain ⟨a4, b4⟩ := body_out ((((p.partHeader hContentDesc [EncodedWord.wordEncode (encoderOf s.encoding) s.charset part.desc]).partHeader hCTE [part.enc]).partHeader hContentType
+      [if part.smime then part.ctype else part.ctype ++ sb "; charset=" ++ (if part.charset.isEmpty then s.charset else part.charset)]).str crlf)
+      part.enc part.prod
+    refine ⟨?_, by rw [b4, b3, b2, b1, b0, h0]⟩
+    rw [a4, a3, a2, a1, a0]
+    simp [leafOfPart, Ent.serTop, foldedLines, hde, List.append_assoc]
+
+/-- a file written at the top level -/
+theorem addFile_top (p : PW) (f : FileM) (h0 : p.stack = []) (hr : p.rawPartHeaders = false) :
+    (p.addFile f).out = p.out ++ (leafOfFile f).serTop ∧ (p.addFile f).stack = [] := by
+  have hd : (p.depth == 0) = true := by simp [PW.depth, h0]
+  unfold PW.addFile
+  simp only [hd, if_true]
+  obtain ⟨a1, b1⟩ := foldl_partHeader_out f.header p hr
+  obtain ⟨a2, b2⟩ := str_out (f.header.foldl (fun p kv => p.partHeader kv.1 [kv.2]) p) crlf
+  obtain ⟨a3, b3⟩ := body_out ((f.header.foldl (fun p kv => p.partHeader kv.1 [kv.2]) p).str crlf)
+    (if f.enc.isEmpty then encB64 else f.enc) f.prod
+  refine ⟨?_, by rw [b3, b2, b1, h0]⟩
+  rw [a3, a2, a1]
+  simp [leafOfFile, Ent.serTop, List.append_assoc]
+
+end GoMail.Mime
+
+namespace GoMail.Mime
+open GoMail
+
+/-- without any layer a plain message has at most one leaf -/
+theorem plain_nolayer (s : MsgState) (h : Plain s) (hM : hasMixed s = false) (hR : hasRelated s = false) (hA : hasAlt s = false) :
+    s.parts.length + s.embeds.length + s.attachments.length ≤ 1 := by
+  obtain ⟨hc, hb, _⟩ := plain_counts s h
+  unfold hasAlt at hA; unfold hasRelated at hR; unfold hasMixed at hM
+  rw [hc, hb] at hA hR hM
+  unfold Generated.hasAlt at hA; unfold Generated.hasRelated at hR; unfold Generated.hasMixed at hM
+  simp only [Bool.and_eq_false_iff, Bool.or_eq_false_iff, decide_eq_false_iff_not, Bool.and_eq_true, Bool.or_eq_true,
+    decide_eq_true_eq, not_true_eq_false, false_or, not_and, not_or] at hA hR hM
+  simp only [or_false] at hA
+  omega
+
+/-- **Messages without a multipart layer**: the content stage writes the single leaf (body part, embed or
+    attachment) at the top level - its header fields folded by writeHeader, an empty line, the encoded
+    body - or nothing at all. -/
+theorem single_refines (s : MsgState) (e : Entropy) (p : PW) (embeds attachments : List FileM)
+    (hp : Plain s) (h0 : p.stack = []) (hr : p.rawPartHeaders = false)
+    (hne : embeds.length = s.embeds.length) (hna : attachments.length = s.attachments.length)
+    (hM : hasMixed s = false) (hR : hasRelated s = false) (hA : hasAlt s = false) :
+    (stageContent s false (stageOpen s e false p).1 embeds attachments).out =
+      p.out ++ ((contentTree s (stageOpen s e false p).2.bMixed (stageOpen s e false p).2.bRelated (stageOpen s e false p).2.bAlt
+        embeds attachments).map Ent.serTop).flatten ∧
+    (contentTree s (stageOpen s e false p).2.bMixed (stageOpen s e false p).2.bRelated (stageOpen s e false p).2.bAlt
+        embeds attachments).length ≤ 1 := by
+  have hlen := plain_nolayer s hp hM hR hA
+  obtain ⟨_, _, hf⟩ := plain_counts s hp
+  have hopen : (stageOpen s e false p).1 = p := by unfold stageOpen; simp [hM, hR, hA]
+  rw [hopen]
+  unfold stageContent contentTree
+  simp only [hM, hR, hA, Bool.false_eq_true, if_false, hf]
+  -- at most one of the three lists has an element
+  match hps : s.parts, hes : embeds, has : attachments with
+  | [], [], [] => simp
+  | [x], [], [] =>
+    obtain ⟨a, _⟩ := writePart_top p s x h0 hr
+    simp [a]
+  | [], [f], [] =>
+    obtain ⟨a, _⟩ := addFile_top p f h0 hr
+    simp [a]
+  | [], [], [f] =>
+    obtain ⟨a, _⟩ := addFile_top p f h0 hr
+    simp [a]
+  | _ :: _ :: _, _, _ => (exfalso; (try rw [hps] at hlen); simp only [List.length_cons, List.length_nil] at hlen hne hna; omega)
+  | _ :: _, _ :: _, _ => (exfalso; (try rw [hps] at hlen); simp only [List.length_cons, List.length_nil] at hlen hne hna; omega)
+  | _ :: _, _, _ :: _ => (exfalso; (try rw [hps] at hlen); simp only [List.length_cons, List.length_nil] at hlen hne hna; omega)
+  | _, _ :: _ :: _, _ => (exfalso; (try rw [hps] at hlen); simp only [List.length_cons, List.length_nil] at hlen hne hna; omega)
+  | _, _ :: _, _ :: _ => (exfalso; (try rw [hps] at hlen); simp only [List.length_cons, List.length_nil] at hlen hne hna; omega)
+  | _, _, _ :: _ :: _ => (exfalso; (try rw [hps] at hlen); simp only [List.length_cons, List.length_nil] at hlen hne hna; omega)
+
+end GoMail.Mime
+
+namespace GoMail.Mime
+open GoMail
+
+theorem header_raw (p : PW) (c : Bool) (k : Bytes) (vs : List Bytes) : (p.header c k vs).rawPartHeaders = p.rawPartHeaders := by
+  unfold PW.header; split <;> rfl
+
+theorem foldl_raw {α} (f : PW → α → PW) (hf : ∀ p x, (f p x).rawPartHeaders = p.rawPartHeaders) (l : List α) (p : PW) :
+    (l.foldl f p).rawPartHeaders = p.rawPartHeaders := by
+  induction l generalizing p with
+  | nil => rfl
+  | cons x xs ih => simp only [List.foldl_cons]; rw [ih, hf]
+
+theorem stageHeaders_raw (s : MsgState) (p : PW) : (stageHeaders s p).rawPartHeaders = p.rawPartHeaders := by
+  unfold stageHeaders
+  simp only []
+  rw [foldl_raw _ (by
+    intro p kn
+    split
+    · exact header_raw _ _ _ _
+    · rfl)]
+  split
+  · rw [header_raw, foldl_raw _ (by intro p kv; rfl), foldl_raw _ (by intro p kv; exact header_raw _ _ _ _)]
+  · rw [foldl_raw _ (by intro p kv; rfl), foldl_raw _ (by intro p kv; exact header_raw _ _ _ _)]
+
+theorem treeOf_top_multi (hM hR hA : Bool) (bM bR bA : Bytes) (parts embeds atts : List Ent) (top : Ent)
+    (hl : hM = true ∨ hR = true ∨ hA = true) (h : treeOf hM hR hA bM bR bA parts embeds atts = [top])
+    (he : hA = true → hR = false → embeds = []) (ha : (hA = true ∨ hR = true) → hM = false → atts = []) :
+    top.serTop = top.ser := by
+  cases hM <;> cases hR <;> cases hA
+  · simp at hl
+  · have e1 := he rfl rfl; have e2 := ha (Or.inl rfl) rfl
+    subst e1; subst e2
+    simp [treeOf] at h; subst h; rfl
+  · have e2 := ha (Or.inr rfl) rfl
+    subst e2
+    simp [treeOf] at h; subst h; rfl
+  · have e2 := ha (Or.inl rfl) rfl
+    subst e2
+    simp [treeOf] at h; subst h; rfl
+  all_goals (simp [treeOf] at h; subst h; rfl)
+
+/-- **Every render (no S/MIME) of a message without deleted parts**: the message header fields, then the
+    message tree - one multipart entity when a layer is needed, else the single leaf at the top level
+    with its header fields folded, or nothing. -/
+theorem writeMsg_refines_all (s : MsgState) (e : Entropy) (hp : Plain s) :
+    planBytes (writeMsg s e false).1.acts = (stageHeaders (defaultHeaders s e) {}).out ++
+      ((contentTree (defaultHeaders s e) (writeMsg s e false).2.bMixed (writeMsg s e false).2.bRelated (writeMsg s e false).2.bAlt
+        (writeMsg s e false).2.embeds (writeMsg s e false).2.attachments).map Ent.serTop).flatten := by
+  by_cases hl : hasMixed s = true ∨ hasRelated s = true ∨ hasAlt s = true
+  · obtain ⟨top, t1, b1⟩ := writeMsg_refines s e hp hl
+    rw [b1, t1]
+    obtain ⟨pe1, pe2⟩ := plain_empty s hp
+    have : top.serTop = top.ser := by
+      rw [contentTree_eq] at t1
+      refine treeOf_top_multi _ _ _ _ _ _ _ _ _ top hl t1 ?_ ?_
+      · intro a b
+        have := pe1 a b
+        have h0 : (writeMsg s e false).2.embeds = [] := by
+          apply List.eq_nil_of_length_eq_zero
+          show (List.map _ _).length = 0
+          simp [stageOpen, defaultHeaders]; exact List.eq_nil_of_length_eq_zero this
+        rw [h0]; rfl
+      · intro a b
+        have := pe2 a b
+        have h0 : (writeMsg s e false).2.attachments = [] := by
+          apply List.eq_nil_of_length_eq_zero
+          show (List.map _ _).length = 0
+          simp [stageOpen, defaultHeaders]; exact List.eq_nil_of_length_eq_zero this
+        rw [h0]; rfl
+    simp [this]
+  · have hM : hasMixed s = false := by cases h : hasMixed s <;> simp_all
+    have hR : hasRelated s = false := by cases h : hasRelated s <;> simp_all
+    have hA : hasAlt s = false := by cases h : hasAlt s <;> simp_all
+    have h0 : (stageHeaders (defaultHeaders s e) {}).stack = [] := by rw [stageHeaders_stack]
+    have hr : (stageHeaders (defaultHeaders s e) {}).rawPartHeaders = false := by rw [stageHeaders_raw]
+    have hp' : Plain (defaultHeaders s e) := hp
+    obtain ⟨a, _⟩ := single_refines (defaultHeaders s e) e (stageHeaders (defaultHeaders s e) {})
+      ((stageOpen (defaultHeaders s e) e false (stageHeaders (defaultHeaders s e) {})).2.embeds.map
+        (fileHeaders (stageOpen (defaultHeaders s e) e false (stageHeaders (defaultHeaders s e) {})).2 false))
+      ((stageOpen (defaultHeaders s e) e false (stageHeaders (defaultHeaders s e) {})).2.attachments.map
+        (fileHeaders (stageOpen (defaultHeaders s e) e false (stageHeaders (defaultHeaders s e) {})).2 true))
+      hp' h0 hr (by simp [stageOpen]) (by simp [stageOpen]) hM hR hA
+    exact a
+
+end GoMail.Mime
